@@ -4,6 +4,7 @@
 -/
 import TealerModel.Props.Common
 import TealerModel.Props.Tie
+import TealerModel.Lemmas.FeeLeaf
 namespace Tealer.C09
 
 /-- tie to today's source: the model's lattice operations and operator table are the functions translated from
@@ -86,5 +87,25 @@ theorem C09_unmirrored_unsound :
 
 -- non-vacuity: the hypotheses of the operator table are satisfiable and the conclusion is informative
 example : Cmp.le.eval 1000 272000 = true ∧ Fee.gamma (feeAssertedMax .le { value := 272000 }).1 1000 := by decide
+
+/-- THE FEE LEAF AGAINST THE CONCRETE SEMANTICS.  In a straight run of a block of the concrete machine, a comparison
+    instruction whose reconstructed operands (construct_stack_ast) are the outputs of a `txn Fee` and of an `int n` pushes a
+    non-zero value exactly when `fee op n` holds for the fee of the transaction being approved; hence that fee lies in the
+    true side of the operator table when the pushed value is non-zero and in the false side when it is zero.  This is the
+    leaf premise of `C01_asserted_of_run` for the direct check `txn Fee; int n; op`. -/
+theorem C09_leaf_concrete (prog : List Ins) (e : Avm.Env) (blockIns : List Ins) (pc0 : Nat) (st : Nat → Avm.State) (k : Nat)
+    (hrun : OperandValues.BlockRun prog e blockIns pc0 k st) (valOf : Nat × Nat → Avm.Val)
+    (hout : ∀ j, j < k → ∀ i, i < (blockIns[j]!).op.pushes →
+      (st (j + 1)).stack[(st j).stack.length - (blockIns[j]!).op.pops + i]? = some (valOf (j, i)))
+    (hargs : ∀ j, j < k → List.Forall₂ (OperandValues.Agree valOf) (OperandValues.argsAt blockIns j)
+      ((st j).stack.drop ((st j).stack.length - (blockIns[j]!).op.pops)))
+    (p p1 p2 : Nat) (c : Cmp) (n : Nat) (hp : p < k) (hp1 : p1 < k) (hp2 : p2 < k)
+    (hopp : (blockIns[p]!).op = .cmp c) (hop1 : (blockIns[p1]!).op = .txn "Fee") (hop2 : (blockIns[p2]!).op = .int (.lit n))
+    (hargsp : OperandValues.argsAt blockIns p = [some (p1, 0), some (p2, 0)]) :
+    ∃ fee, e.field e.self "Fee" = some (.int fee) ∧ EvalRun.truthy (valOf (p, 0)) = c.eval fee n ∧
+      (fee ≤ MAX_UINT64 →
+        (EvalRun.truthy (valOf (p, 0)) = true → Fee.gamma (feeAssertedMax c { value := n }).1 fee) ∧
+        (EvalRun.truthy (valOf (p, 0)) = false → Fee.gamma (feeAssertedMax c { value := n }).2 fee)) :=
+  FeeLeaf.fee_leaf prog e blockIns pc0 st k hrun valOf hout hargs p p1 p2 c n hp hp1 hp2 hopp hop1 hop2 hargsp
 
 end Tealer.C09
